@@ -92,8 +92,10 @@ Lower == <<"a", "b", "c", "d", "e", "f", "g", "h", "i", "j", "k", "l", "m",
            "n", "o", "p", "q", "r", "s", "t", "u", "v", "w", "x", "y", "z">>
 Digits == {"0", "1", "2", "3", "4", "5", "6", "7", "8", "9"}
 
-IsUpper(ch) == \E k \in 1..26 : Upper[k] = ch
-ToLower(ch) == IF IsUpper(ch) THEN Lower[CHOOSE k \in 1..26 : Upper[k] = ch] ELSE ch
+UpperSet == {Upper[k] : k \in 1..26}
+LowerMap == [ch \in UpperSet |-> Lower[CHOOSE k \in 1..26 : Upper[k] = ch]]
+IsUpper(ch) == ch \in UpperSet
+ToLower(ch) == IF ch \in UpperSet THEN LowerMap[ch] ELSE ch
 
 (* Emboss enum value names: [A-Z][A-Z_0-9]*[A-Z_][A-Z_0-9]* *)
 IsShoutyName(n) ==
